@@ -151,9 +151,41 @@ def case(ctx, rng, idx, state):
         div = gen_pg.symmetric_sizes(pg, rng, nmax=nmax if mode == "klist" else 3, mixed=force)
         fft = gen_pg.symmetric_sizes(pg, rng, nmax=3 if mode == "klist" else 2, mixed=force)
         wit = dict(mode=mode, group=entry["name"], tr=tr, lattice=lattice, NKdiv=div, NKFFT=fft)
-        grid = Grid(system, NKdiv=div, NKFFT=fft)
-        if not (np.all(grid.div == div) and np.all(grid.FFT == fft)):
-            raise harness.Skip("grid adjusted by determineNK")
+        how = "NKdiv,NKFFT"
+        if mode == "klist" and rng.random() < 0.35:
+            # the other documented ways of specifying the grid: whatever split determineNK chooses must be a symmetric grid that partitions the BZ
+            how = ["NK", "NK,NKFFT", "length", "length,NKFFT", "NK_scalar"][int(rng.integers(5))]
+            NK = div * fft
+            import warnings
+            with warnings.catch_warnings():
+                warnings.simplefilter("ignore")
+                try:
+                    if how == "NK":
+                        grid = Grid(system, NK=NK)
+                    elif how == "NK,NKFFT":
+                        grid = Grid(system, NK=NK, NKFFT=fft)
+                    elif how == "NK_scalar":
+                        n = int(NK.max())
+                        grid = Grid(system, NK=n) if pg.symmetric_grid([n] * 3) else Grid(system, NK=NK)
+                    else:
+                        L = float(rng.uniform(6, 30))
+                        NKl = np.array(np.round(L / (2 * np.pi) * np.linalg.norm(pg.recip_lattice, axis=1)), dtype=int)
+                        if np.any(NKl < 1) or np.prod(NKl) > 400 or not pg.symmetric_grid(NKl):
+                            raise harness.Skip("length gives an empty, too large or non-symmetric grid (documented assertion)")
+                        grid = Grid(system, length=L) if how == "length" else Grid(system, length=L, NKFFT=fft)
+                except AssertionError as e:
+                    if "not consistent with the given symmetry" in str(e):
+                        raise harness.Skip("requested sizes rejected as non-symmetric (documented assertion)")
+                    raise
+            div, fft = np.array(grid.div), np.array(grid.FFT)
+            if np.prod(div) * np.prod(fft) > 3000:
+                raise harness.Skip("grid too large for the budget")
+            wit.update(NKdiv=div, NKFFT=fft, grid_specified_by=how)
+            ctx.count("grid_specified_by_NK_or_length")
+        else:
+            grid = Grid(system, NKdiv=div, NKFFT=fft)
+            if not (np.all(grid.div == div) and np.all(grid.FFT == fft)):
+                raise harness.Skip("grid adjusted by determineNK")
 
     if mode == "klist":
         for use_sym in (True, False):
@@ -296,7 +328,7 @@ if __name__ == "__main__":
              "non-trivial = symmetry reduced the list / at least one cell was divided; distinct by the full parameter tuple",
         assumptions=["oracle = brute-force rasterisation and point-sampled density with the group acting on full-BZ reduced k, matrices computed by the harness "
                      "from the cartesian rotation and the TR/inversion flags", "random probe points are generic (cell boundaries have measure zero)"],
-        required_counters=("klist_cases", "refinement_histories", "tetra_histories", "mon:divide_calls", "mon:divide_tetra_calls",
+        required_counters=("grid_specified_by_NK_or_length", "klist_cases", "refinement_histories", "tetra_histories", "mon:divide_calls", "mon:divide_tetra_calls",
                            "histories_with_symmetry_merges", "density_oracle_cases", "mon:merge_equivalence_checked",
                            "anisotropic_FFT_on_mixed_axes"),
     )
